@@ -3,3 +3,4 @@ pub mod r1;
 pub mod gen;
 pub mod e1;
 pub mod e5;
+pub mod e2_store;
